@@ -104,6 +104,10 @@ func c20Block(node ast.Node, src []byte) map[string]any {
 			line := n.Lines().At(i)
 			buf.Write(line.Value(src))
 		}
+		// blocks that end with a line of their own (<script>, <pre>, <style>, comments, processing instructions, declarations, CDATA)
+		if n.HasClosure() {
+			buf.Write(n.ClosureLine.Value(src))
+		}
 		return map[string]any{"k": "htmlblock", "raw": buf.String()}
 	case *ast.TextBlock:
 		return map[string]any{"k": "textblock", "inl": c20Inlines(n, src)}
